@@ -120,15 +120,32 @@ def h_frame2(B, struct="2d-p3", op1="transform", op2="rotator"):
     B.check(f"after {op1};{op2}: names/dims/attrs unchanged", _meta(model) == meta0, "changed")
 
 
-def h_frame(B, struct="2d", op="transform", flags=None):
+def h_frame(B, struct="2d", op="transform", flags=None, weights=False):
     flags = dict(flags or {})
     X, dim, fd = _mk(B, struct, "x")
     X0 = copy.deepcopy(X)
+    w = w0 = None
+    if weights:
+        w = M.make_weights(B, X, fd)
+        w0 = copy.deepcopy(w)
     names0 = [getattr(x, "name", None) for x in (X if isinstance(X, list) else [X])]
     Xn = _new_like(B, X, "xn")
     S = xr.DataArray(B.array((2, 2), "S"), dims=("time", "mode"), coords={"time": [100, 101], "mode": [1, 2]}) if struct != "multiindex" else None
-    model = M.single("EOF", n_modes=2, solver="full", **flags).fit(X, dim)
+    model = M.single("EOF", n_modes=2, solver="full", **flags)
+    model.fit(X, dim, weights=w) if weights else model.fit(X, dim)
     B.covers(f"operation {op}")
+    if weights:
+        # fitting must not touch the user's objects; a second model fitted on the very same objects gets the same answer
+        B.eq("user input values unchanged by fit", X, X0)
+        B.eq("user weights unchanged by fit", w, w0)
+        twin = M.single("EOF", n_modes=2, solver="full", **flags)
+        twin.fit(X, dim, weights=w)
+        B.eq("a second model fitted on the same objects: singular values", twin.data["norms"], model.data["norms"])
+        Xn0 = copy.deepcopy(Xn)
+        t1 = model.transform(Xn)
+        t2 = model.transform(Xn)
+        B.eq("transform of the same object twice gives the same scores", t2, t1)
+        B.eq("transform leaves its argument unchanged", Xn, Xn0)
     before = _answers(model, Xn, S)
     meta0 = _meta(model)
     r = B.completes(f"operation {op} runs", lambda: _apply(B, op, model, X, Xn, S) or True)
@@ -165,6 +182,25 @@ def h_refit(B, s1="2d", s2="2d", op="none", flags=None):
     exp = _answers(fresh, Xn2, S if s2 != "multiindex" else None)
     for k in exp:
         B.eq(f"refit == fresh fit: {k}", got[k], exp[k])
+
+
+def h_refit_pop(B, n=6, p=3, npca=3):
+    """POP keeps a 'sorted' flag next to its results: a second fit must give what a fresh model gives"""
+    D1 = da2d(B, "d", n, p)
+    D2 = da2d(B, "e", n, p)
+    mk = lambda: M.single("POP", n_modes=npca, n_pca_modes=npca, use_pca=True, solver="full")  # noqa
+    model = mk()
+    model.fit(D1, "time")
+    B.covers("POP.fit (second fit on the same object)", "POP._sort_by_variance")
+    r = B.completes("second POP fit runs", lambda: model.fit(D2, "time"))
+    if r is None:
+        return
+    fresh = mk()
+    fresh.fit(D2, "time")
+    for key in ("norms", "eigenvalues", "components", "scores"):
+        B.eq(f"re-fitted POP == fresh POP: {key}", model.data[key], fresh.data[key])
+    nrm = model.data["norms"].data
+    B.ge("re-fitted POP: modes ordered by descending std of the coefficient series", nrm[:-1], nrm[1:])
 
 
 def h_cross_frame(B, op="rotator", alpha=1.0):
@@ -222,6 +258,10 @@ def configs(tier):
         for op in ("transform", "rotator"):
             add("h_frame", f"frame|{st}|{op}", struct=st, op=op)
     add("h_frame", "frame|2d-p3|standardize|transform", struct="2d-p3", op="transform", flags={"standardize": True})
+    # weights with every preprocessing step that copies the data switched off / on
+    add("h_frame", "frame|2d-p3|weights|center=False|transform", struct="2d-p3", op="transform", flags={"center": False}, weights=True)
+    add("h_frame", "frame|2d-p3|weights|transform", struct="2d-p3", op="transform", weights=True)
+    add("h_frame", "frame|dataset|weights|center=False|transform", struct="dataset", op="transform", flags={"center": False}, weights=True)
     pairs = [("2d", "2d"), ("2d", "2d-p3"), ("2d-p3", "3d"), ("3d", "2d"), ("dataset", "2d"), ("2d", "list"), ("list", "list"), ("multiindex", "2d"), ("2d", "multiindex")]
     for s1, s2 in pairs:
         add("h_refit", f"refit|{s1}->{s2}|none", s1=s1, s2=s2, op="none")
@@ -234,6 +274,8 @@ def configs(tier):
             for o2 in OPS:
                 if o1 != o2:
                     add("h_frame2", f"frame2|{o1};{o2}", op1=o1, op2=o2)
+    cfgp = {"key": "refit|POP|n6p3", "fn": "h_refit_pop", "params": {"n": 6, "p": 3, "npca": 3}, "options": {"full_rank": True, "budget_s": 150 if tier == "quick" else 900}}
+    out.append(cfgp)
     add("h_cross_frame", "cross|frame|rotator", op="rotator")
     add("h_cross_frame", "cross|frame|transform", op="transform", alpha=0.5)
     add("h_cross_refit", "cross|refit", alpha=0.5)
